@@ -419,7 +419,7 @@ pub fn fillers(k: usize) -> Vec<Node> {
     let mut e = Enumerator::new(g);
     let mut out = Vec::new();
     e.for_each_upto(k, &mut |_, n| out.push(n));
-    if k >= 3 {
+    if k >= 2 {
         // hand-picked larger fillers: a variable-size part followed by something that forces
         // backtracking into it (they need 4-5 nodes)
         let set_ab = || Node::Set(vec!['a', 'b'], false);
